@@ -1,6 +1,7 @@
 """Basic types."""
 
 from enum import Enum
+from numbers import Real
 from typing import (
     Callable,
     Generic,
@@ -327,7 +328,7 @@ def res_(x: Union[Resolution, float, int], /) -> Resolution:
     """Resolution for square pixels with inverted Y axis."""
     if isinstance(x, Resolution):
         return x
-    if isinstance(x, (int, float)):
+    if isinstance(x, Real):  # int, float, numpy scalars
         return Resolution(float(x))
     raise ValueError(f"Unsupported input type: res_(x: {type(x)})")
 
